@@ -332,4 +332,4 @@ func FuzzC19(f *testing.F) {
 	})
 }
 
-func TestReplay(t *testing.T) { ev.ReplayAll(t) }
+func TestReplay(t *testing.T) { defer closeEnv(); ev.ReplayAll(t) }
